@@ -1,5 +1,5 @@
 use std::collections::HashSet;
-use anyhow::{Context, Result};
+use anyhow::{bail, Context, Result};
 use indexmap::{IndexMap, IndexSet};
 use java_string::{JavaCodePoint, JavaStr, JavaString};
 use duke::tree::class::{ClassAccess, ClassFile, EnclosingMethod, InnerClass, ObjClassName, ObjClassNameSlice};
@@ -91,23 +91,33 @@ pub fn nest_jar<A>(remap_option: bool, src: &impl Jar, nests: Nests<A>) -> Resul
 	let mut dst_resulting_entries = IndexMap::new();
 
 	// only when remapping it's needed
-	fn remap(this_nests: &IndexMap<ObjClassName, Nest>, corresponding_nest: &Nest) -> ObjClassName {
-		let result = this_nests.get(&corresponding_nest.encl_class_name)
-			.map(|nest| remap(this_nests, nest))
-			.unwrap_or_else(|| corresponding_nest.encl_class_name.clone());
+	// `depth` is the number of nests passed on the way up the chain of enclosing classes. A chain that passes more
+	// nests than there are passes one of them twice: the table nests a class in itself.
+	fn remap(this_nests: &IndexMap<ObjClassName, Nest>, corresponding_nest: &Nest, depth: usize) -> Result<ObjClassName> {
+		if depth > this_nests.len() {
+			bail!("cyclic nests table: class {:?} is (transitively) enclosed by itself", corresponding_nest.class_name);
+		}
+
+		let result = match this_nests.get(&corresponding_nest.encl_class_name) {
+			Some(nest) => remap(this_nests, nest, depth + 1)?,
+			None => corresponding_nest.encl_class_name.clone(),
+		};
 
 		let mut s: JavaString = result.into_inner();
 		s.push('$');
 		s.push_java_str(corresponding_nest.inner_name.as_inner());
 		// TODO: redo this safety comment
 		// SAFETY: Joining a class name with `$` and an inner name is always valid.
-		unsafe { ObjClassName::from_inner_unchecked(s) }
+		Ok(unsafe { ObjClassName::from_inner_unchecked(s) })
 	}
 
-	let map = this_nests.iter()
-		.map(|(old_name, nest)| (old_name.as_slice(), remap(&this_nests, nest)))
-		.filter(|(old_name, new_name)| old_name != new_name)
-		.collect();
+	let mut map = IndexMap::new();
+	for (old_name, nest) in &this_nests {
+		let new_name = remap(&this_nests, nest, 1)?;
+		if old_name != &new_name {
+			map.insert(old_name.as_slice(), new_name);
+		}
+	}
 
 	struct MyRemapper<'a>(IndexMap<&'a ObjClassNameSlice, ObjClassName>);
 	impl ARemapper for MyRemapper<'_> {
